@@ -409,7 +409,7 @@ func portParts(c *harness.Check) {
 			for _, f := range fails {
 				report(20<<48|i, f.sig(), f.what(pc.spec, pc.list), replayOfPort(pc, f))
 			}
-			if i == 100 || i == int64(len(cases))-1 {
+			if i == int64(len(cases))-1 {
 				ref, count, runs, first := refPorts(pc.spec, pc.list)
 				_ = ref
 				c.Sample(map[string]any{"part": "ports", "range_string": pc.spec, "port_list": pc.list, "members": count, "maximal_runs": runs, "smallest": first, "ports_probed": "1..65535"})
